@@ -148,6 +148,49 @@ func present(entry string, good bool, total int, pres string) string {
 	return s
 }
 
+// presentInner builds an unsigned Response whose EncryptedAssertion plaintext is a signed assertion
+// padded with trailing whitespace to total octets and presented raw or DEFLATE-compressed.
+func presentInner(good bool, total int, pres string) string {
+	w := world.Get()
+	b := idp.NewBuilder(idp.Layout{Prefix: 0}, 9)
+	spec := world.Content("GA1")
+	if !good {
+		spec.Subject.Conf.Data.Recipient = idp.S("https://evil.example/acs")
+	}
+	ae := ownSigned(b, w, spec, true)
+	doc := idp.Plain(ae)
+	if total < len(doc) {
+		total = len(doc)
+	}
+	var plain bytes.Buffer
+	chunk := bytes.Repeat([]byte("\n"), 1<<20)
+	writePadded := func(wr interface{ Write([]byte) (int, error) }) {
+		wr.Write(doc)
+		for left := total - len(doc); left > 0; {
+			n := left
+			if n > len(chunk) {
+				n = len(chunk)
+			}
+			wr.Write(chunk[:n])
+			left -= n
+		}
+	}
+	if pres == "raw" {
+		writePadded(&plain)
+	} else {
+		fw, _ := flate.NewWriter(&plain, levelOf[pres])
+		writePadded(fw)
+		fw.Close()
+	}
+	ee, err := b.EncryptedAssertion(plain.Bytes(), idp.EncOpts{DataAlg: idp.EncAES128GCM, KeyTransport: idp.KtOAEP, Pub: &idp.RSAKey("sp").PublicKey})
+	if err != nil {
+		orch.Fatal("inflate: encrypt: %v", err)
+	}
+	root := b.ResponseEl(genuineRoot())
+	root.AddChild(ee)
+	return base64.StdEncoding.EncodeToString(idp.Plain(root))
+}
+
 func callEntry(sp *saml2.SAMLServiceProvider, entry, enc string) (res, data, errc string) {
 	defer func() {
 		if r := recover(); r != nil {
@@ -163,7 +206,7 @@ func callEntry(sp *saml2.SAMLServiceProvider, entry, enc string) (res, data, err
 	var err error
 	var isNil bool
 	switch entry {
-	case "validate":
+	case "validate", "validateEncInner":
 		var r *types.Response
 		r, err = sp.ValidateEncodedResponse(enc)
 		isNil = r == nil
@@ -252,7 +295,12 @@ func (Inflate) Run(c *orch.Case) *orch.Outcome {
 	if os.Getenv("VERIF_TIER") != "thorough" && total > 100<<20 {
 		total = 100 << 20
 	}
-	enc := present(in.Entry, in.Good, total, in.Pres)
+	var enc string
+	if in.Entry == "validateEncInner" {
+		enc = presentInner(in.Good, total, in.Pres)
+	} else {
+		enc = present(in.Entry, in.Good, total, in.Pres)
+	}
 	sp := world.Get().NewSP()
 	sp.MaximumDecompressedBodySize = map[string]int64{"0": 0, "1": 1, "2k": 2048, "64k": 65536}[cfg.Limit]
 
@@ -265,7 +313,13 @@ func (Inflate) Run(c *orch.Case) *orch.Outcome {
 	o.Res, o.Err = res, errc
 	o.AllocKiB = int((m1.TotalAlloc - m0.TotalAlloc) >> 10)
 	if in.Pres != "raw" && total <= eff {
-		rres, rdata, rerrc := callEntry(sp, in.Entry, present(in.Entry, in.Good, total, "raw"))
+		twin := ""
+		if in.Entry == "validateEncInner" {
+			twin = presentInner(in.Good, total, "raw")
+		} else {
+			twin = present(in.Entry, in.Good, total, "raw")
+		}
+		rres, rdata, rerrc := callEntry(sp, in.Entry, twin)
 		o.Same = rres == res && rdata == data && rerrc == errc
 	}
 	return &orch.Outcome{Obs: o, Replay: map[string]any{"entry": in.Entry, "limit": cfg.Limit, "decompressed_size": total, "pres": in.Pres,
